@@ -2,7 +2,7 @@
    Statements only; every proof is `exact` of a lemma of C08/Lemmas*.v.  Angles are pairs (c, s) on the unit circle. *)
 From Coq Require Import ZArith List Bool QArith.
 Import ListNotations.
-From GV Require Import Common.Wire C08.Model C08.Lemmas.
+From GV Require Import Common.Wire gen.Gen_rotate C08.Model C08.Lemmas.
 Open Scope Q_scope.
 
 (* Rectangle: off the boundary, contains p <-> p = centre + R(c,s)(u,v) with |u| < w/2, |v| < h/2, in whichever of the
@@ -113,6 +113,75 @@ Theorem restore_then_ops : forall st ops, fst (t_apply st TRestore) = fst st /\
   ((forall vs, fst st <> Poly vs) -> t_apply_ops (t_apply st TRestore) ops = t_apply_ops st ops).
 Proof. intros st ops. split; [exact (Lemmas.restore_region st)|exact (Lemmas.restore_then_ops st ops)]. Qed.
 Print Assumptions restore_then_ops.
+
+(* Roi.rotate_by(dtheta) = rotate_to(theta + dtheta) on the tracked state (region, position angle); angles are rotation pairs and
+   theta + dtheta is the composition of the rotations.  by_ops l = the steps rotate_by d_1 .. rotate_by d_n, each with the branch /
+   skip flags the code's float tests give for it. *)
+Theorem rotate_by_is_rotate_to : forall st b skip c s,
+  t_apply st (TRotateBy b skip c s) =
+  t_apply st (TRotateTo b skip (fst (ang_add (snd st) (c, s))) (snd (ang_add (snd st) (c, s)))).
+Proof. exact Lemmas.rotate_by_is_rotate_to. Qed.
+Print Assumptions rotate_by_is_rotate_to.
+
+(* n successive increments store theta + d_1 + ... + d_n (rectangle, ellipse, polygon), which is theta + (d_1 + ... + d_n): one rotation
+   by the sum, on the unit circle when the d_i are -- however often the running angle passes a multiple of pi *)
+Theorem rotate_by_angle_sum : forall st l, rotatable (fst st) ->
+  snd (t_apply_ops st (by_ops l)) = fold_left ang_add (map snd l) (snd st).
+Proof. exact Lemmas.rotate_by_angle_sum. Qed.
+Print Assumptions rotate_by_angle_sum.
+
+Theorem rotate_by_sum_is_one_rotation : forall th d l, fold_left ang_add (d :: l) th = ang_add th (ang_total (d :: l)).
+Proof. exact Lemmas.ang_sum_total. Qed.
+Print Assumptions rotate_by_sum_is_one_rotation.
+
+Theorem rotate_by_sum_on_unit_circle : forall l th, on_unit (fst th) (snd th) -> Forall (fun d => on_unit (fst d) (snd d)) l ->
+  on_unit (fst (fold_left ang_add l th)) (snd (fold_left ang_add l th)).
+Proof. exact Lemmas.ang_sum_unit. Qed.
+Print Assumptions rotate_by_sum_on_unit_circle.
+
+(* rectangles and ellipses: n increments leave exactly the state that ONE rotate_by of the total increment leaves *)
+Theorem rotate_by_collapse : forall r th l xb xs d, (forall vs, r <> Poly vs) -> rotatable r ->
+  t_apply_ops (r, th) (by_ops (l ++ [(xb, xs, d)])) =
+  let total := ang_total (map snd l ++ [d]) in t_apply (r, th) (TRotateBy xb xs (fst total) (snd total)).
+Proof. exact Lemmas.rotate_by_collapse. Qed.
+Print Assumptions rotate_by_collapse.
+
+(* polygons: one rotate_by(d) turns every vertex about the centre by (an angle pair equal to) d itself -- the difference
+   (theta + d) - theta that PolygonalROI.rotate_to takes -- and stores theta + d *)
+Theorem rotate_by_polygon : forall vs th b c s, on_unit (fst th) (snd th) ->
+  exists c' s', c' == c /\ s' == s /\
+    (t_apply (Poly vs, th) (TRotateBy b false c s) =
+     (Poly (map (fun v => padd (rot c' s' (psub v (poly_center vs))) (poly_center vs)) vs), ang_add th (c, s)))%type.
+Proof. exact Lemmas.rotate_by_polygon. Qed.
+Print Assumptions rotate_by_polygon.
+
+(* the angle logic of the model's rotate_by / rotate_to IS the code's: Gen_rotate.* is regenerated from glue/core/roi.py on every run *)
+Theorem translated_rotate_by_step : forall st b skip c s,
+  t_apply st (TRotateBy b skip c s) =
+  t_rotate_to st b skip (fst (Gen_rotate.rotate_by_arg (Some (snd st)) (c, s))) (snd (Gen_rotate.rotate_by_arg (Some (snd st)) (c, s))).
+Proof. exact Lemmas.gen_rotate_by_step. Qed.
+Print Assumptions translated_rotate_by_step.
+
+Theorem translated_rotate_to_polygon : forall vs th b skip c s,
+  let theta := Gen_rotate.poly_rotate_to_theta (Some (c, s)) in
+  let dtheta := Gen_rotate.poly_rotate_to_dtheta th theta in
+  let m := Gen_rotate.poly_rotate_to_matrix_angle th theta dtheta in
+  t_rotate_to (Poly vs, th) b skip c s = (rotate_to (Poly vs) b skip (fst m) (snd m), Gen_rotate.poly_rotate_to_new_theta th theta dtheta).
+Proof. exact Lemmas.gen_rotate_to_polygon. Qed.
+Print Assumptions translated_rotate_to_polygon.
+
+Theorem translated_polygon_skip_test : forall self_theta theta dtheta,
+  Gen_rotate.poly_rotate_to_skip_quantity self_theta theta dtheta = dtheta /\
+  Gen_rotate.poly_rotate_to_skip_half_turns = 2%Z /\ Gen_rotate.poly_rotate_to_skip_atol == 1 # 1000000000.
+Proof. exact Lemmas.gen_polygon_skip_test. Qed.
+Print Assumptions translated_polygon_skip_test.
+
+Theorem translated_rotate_to_rect_ellipse : forall x0 x1 y0 y1 b0 c0 s0 th b skip c s,
+  t_rotate_to (Rect x0 x1 y0 y1 b0 c0 s0, th) b skip c s = (Rect x0 x1 y0 y1 b c s, Gen_rotate.rect_rotate_to_theta th (Some (c, s))) /\
+  t_rotate_to (Ellipse x0 x1 y0 y1 b0 c0 s0, th) b skip c s = (Ellipse x0 x1 y0 y1 b c s, Gen_rotate.ellipse_rotate_to_theta th (Some (c, s))) /\
+  Gen_rotate.rect_rotate_to_theta th None = ang_zero /\ Gen_rotate.ellipse_rotate_to_theta th None = ang_zero.
+Proof. exact Lemmas.gen_rotate_to_rect_ellipse. Qed.
+Print Assumptions translated_rotate_to_rect_ellipse.
 
 (* the model's In / Out verdicts (the only ones compared with the implementation) are sound for the geometric definitions *)
 Theorem rect_verdict_sound : forall x0 x1 y0 y1 eps b c s p, 0 <= eps -> c * c + s * s == 1 -> branch_ok b c s ->
